@@ -728,7 +728,7 @@ func (d *structDecoder) DecodeStream(s *Stream, depth int64, p unsafe.Pointer) e
 					}
 					seenFieldNum++
 					if d.fieldUniqueNameNum <= seenFieldNum {
-						return s.skipObject(depth)
+						return s.skipObjectRest(depth)
 					}
 					seenFields[field.fieldIdx] = struct{}{}
 				}
@@ -822,7 +822,7 @@ func (d *structDecoder) Decode(ctx *RuntimeContext, cursor, depth int64, p unsaf
 					cursor = c
 					seenFieldNum++
 					if d.fieldUniqueNameNum <= seenFieldNum {
-						return skipObject(buf, cursor, depth)
+						return skipObjectRest(buf, cursor, depth)
 					}
 					seenFields[field.fieldIdx] = struct{}{}
 				}
